@@ -171,26 +171,52 @@ def run(prog: Program, res: Result) -> None:
 
     # ------------------------------------------------------------------ R1
     init = prog.func(f"{TASK}.__init__")
-    ok = False
-    for n in own_nodes(init):
-        if isinstance(n, ast.Assign) and isinstance(n.targets[0], ast.Subscript) and dotted(n.targets[0].value) == "kwargs" \
-                and isinstance(n.targets[0].slice, ast.Constant) and n.targets[0].slice.value == "space_dimension":
-            v = n.value
-            if isinstance(v, ast.Call) and isinstance(v.func, ast.Name) and v.func.id == "sum" and len(v.args) == 1 \
-                    and isinstance(v.args[0], (ast.ListComp, ast.GeneratorExp)) and len(v.args[0].generators) == 1 \
-                    and not v.args[0].generators[0].ifs:
-                g = v.args[0].generators[0]
-                e = v.args[0].elt
-                src = origin(init.node, g.iter)
-                src_ok = (isinstance(src, ast.Call) and dotted(src.func) == "kwargs.get" and src.args and isinstance(src.args[0], ast.Constant)
-                          and src.args[0].value == "variables") or (isinstance(src, ast.Subscript) and dotted(src.value) == "kwargs")
-                if isinstance(e, ast.Call) and isinstance(e.func, ast.Attribute) and e.func.attr == "size" and isinstance(e.func.value, ast.Name) \
-                        and isinstance(g.target, ast.Name) and e.func.value.id == g.target.id and src_ok:
-                    ok = True
-    res.ob(ok, f"{init.loc()} space_dimension = sum(v.size() for v in variables)", "space_dimension")
-    if not ok:
+
+    def _variables_source(e):
+        e = origin(init.node, e) if isinstance(e, ast.Name) else e
+        return (isinstance(e, ast.Call) and dotted(e.func) == "kwargs.get" and e.args and isinstance(e.args[0], ast.Constant)
+                and e.args[0].value == "variables") or (isinstance(e, ast.Subscript) and dotted(e.value) == "kwargs"
+                                                        and isinstance(e.slice, ast.Constant) and e.slice.value == "variables")
+
+    def _dimension_verdict(v):
+        """True: sum of v.size() over the declared variables; a string: understood and something else; None: not understood"""
+        v = origin(init.node, v) if isinstance(v, ast.Name) else v
+        if isinstance(v, ast.Call) and isinstance(v.func, ast.Name) and v.func.id == "len" and len(v.args) == 1 and _variables_source(v.args[0]):
+            return "the number of declared variables, not the sum of their sizes"
+        if isinstance(v, ast.Constant):
+            return f"the constant {v.value!r}"
+        if not (isinstance(v, ast.Call) and isinstance(v.func, ast.Name) and v.func.id == "sum" and len(v.args) == 1 and not v.keywords):
+            return None
+        c = origin(init.node, v.args[0]) if isinstance(v.args[0], ast.Name) else v.args[0]
+        if not (isinstance(c, (ast.ListComp, ast.GeneratorExp)) and len(c.generators) == 1 and isinstance(c.generators[0].target, ast.Name)):
+            return None
+        g, e = c.generators[0], c.elt
+        if not _variables_source(g.iter):
+            return None
+        if g.ifs:
+            return f"a sum over the variables filtered by `{norm(g.ifs[0], 40)}`"
+        if isinstance(e, ast.Call) and isinstance(e.func, ast.Attribute) and e.func.attr == "size" and isinstance(e.func.value, ast.Name) \
+                and e.func.value.id == g.target.id and not e.args:
+            return True
+        if isinstance(e, ast.Constant):
+            return f"a sum of the constant {e.value!r} per variable"
+        return None
+
+    stored = [n.value for n in own_nodes(init)
+              if isinstance(n, ast.Assign) and isinstance(n.targets[0], ast.Subscript) and dotted(n.targets[0].value) == "kwargs"
+              and isinstance(n.targets[0].slice, ast.Constant) and n.targets[0].slice.value == "space_dimension"]
+    verdicts = [_dimension_verdict(v) for v in stored]
+    ok = bool(verdicts) and all(x is True for x in verdicts)
+    wrong = [x for x in verdicts if isinstance(x, str)]
+    if wrong:
+        res.ob(False)
         bad("R1-dimension-is-sum-of-sizes", init.node, "models.Task.__init__::space_dimension",
-            "space_dimension is not computed as the sum of v.size() over the declared variables")
+            f"space_dimension is not computed as the sum of v.size() over the declared variables: it is {wrong[0]}")
+    elif not ok:
+        res.errors.append(f"{init.loc()} Task.__init__: how space_dimension is derived from the variables is not understood "
+                          f"({'no store of kwargs[\'space_dimension\']' if not stored else norm(stored[0], 60)}) (undecided)")
+    else:
+        res.ob(True, f"{init.loc()} space_dimension = sum(v.size() for v in variables)", "space_dimension")
 
     # ------------------------------------------------------------------ R2 shapes per kind
     n_shapes = 0
